@@ -15,8 +15,12 @@ let content_bad d n = if n = 0 then [] else List.map (unit_good d) (range 0 (n -
 
 (* Store.AutoSaveIndex of the script being evaluated (field autosave=0|1, default 1) *)
 let autosv = ref true
+let bad_ids : int list ref = ref []
 
-type blobinfo = { bid : int; bchunks : int; bman : bool }
+(* bbad: manifest media type but bytes that do not decode.  Store.Push stores such content,
+   fails to index it and removes it again = the push of the bytes followed by their plain
+   delete (a composite call); Store.Tag refuses it (no effect). *)
+type blobinfo = { bid : int; bchunks : int; bman : bool; bbad : bool }
 
 let parse_script (s : string) =
   let parts = String.split_on_char ';' s in
@@ -29,7 +33,7 @@ let parse_script (s : string) =
   let items x = List.filter (fun y -> y <> "") (String.split_on_char ',' x) in
   let blobs = List.map (fun x ->
       match String.split_on_char ':' x with
-      | [a; b; c] -> { bid = int_of_string a; bchunks = int_of_string b; bman = (c = "1") }
+      | [a; b; c] -> { bid = int_of_string a; bchunks = int_of_string b; bman = (c = "1"); bbad = (c = "2") }
       | _ -> failwith "blob") (items (field "blobs")) in
   let find d = List.find (fun b -> b.bid = d) blobs in
   let num x = n_of_int (int_of_string x) in
@@ -39,6 +43,12 @@ let parse_script (s : string) =
        reopen            oci.New on the existing directory: no mutation *)
   let parse_call l =
     match l with
+    | ["push"; d] when (find (int_of_string d)).bbad ->
+      let b = find (int_of_string d) in
+      [Push (n_of_int b.bid, content_good b.bid b.bchunks, false); Delete (n_of_int b.bid)]
+    | ["tag"; d; _] when (find (int_of_string d)).bbad ->
+      (* no effect: encoded as the Untag of a reference that cannot exist (no micro-step, state unchanged) *)
+      [Untag (n_of_int (900000000 + int_of_string d))]
     | ["push"; d] -> let b = find (int_of_string d) in [Push (n_of_int b.bid, content_good b.bid b.bchunks, b.bman)]
     | ["pushbad"; d] -> let b = find (int_of_string d) in [Push (n_of_int b.bid, content_bad b.bid b.bchunks, b.bman)]
     | ["tag"; d; r] -> [Tag (num d, num r)]
@@ -57,6 +67,7 @@ let parse_script (s : string) =
     | "crash" :: j :: rest -> (parse_call rest, Some (int_of_string j))
     | l -> (parse_call l, None) in
   autosv := (field "autosave" <> "0");
+  bad_ids := List.map (fun b -> b.bid) (List.filter (fun b -> b.bbad) blobs);
   (blobs, List.map parse_hist (items (field "hist")), parse_call (String.split_on_char ':' (field "final")))
 
 (* digest-and-size verification: the name of the blob whose content this is, 0 for anything else *)
@@ -195,7 +206,16 @@ let () =
     | id :: "R" :: sc :: _ ->
       let (blobs, hist, fin) = parse_script sc in
       let h = hfun blobs in
-      let res s ops = match ops with [] -> "ok" | o :: _ -> show_res (op_res h s o) in
+      let res s ops =
+        match ops with
+        | [] -> "ok"
+        | [Untag r] when int_of_n r >= 900000000 ->
+          (* Tag of an undecodable manifest: refused when the bytes are there, not found otherwise *)
+          if exists_file s.sfs (FBlob (n_of_int (int_of_n r - 900000000))) then "invalid" else "notfound"
+        | [Push (d, _, false); Delete d'] when d = d' ->
+          (* undecodable manifest: stored, not indexable, removed again *)
+          (match op_res h s (List.hd ops) with ROk -> "invalid" | r -> show_res r)
+        | o :: _ -> show_res (op_res h s o) in
       let rec go s calls acc =
         match calls with
         | [] -> List.rev acc
